@@ -418,6 +418,84 @@ func runC09(r *Run) {
 
 	r.rule("R5", "pooled parameter maps: cleared before reuse, not used after Put (E4a/E1)", func() { pooledParamMapRule(r) })
 
+	r.rule("R9", "a pooled parameter map is handed back once: a loop that returns the maps of the remaining ranges, run after the current range's own map went back, starts behind the current range (a map put into the pool twice is handed to two ranges of a later header, whose parameters overwrite each other) (E10)", func() {
+		f := r.Fn("", "getOffer")
+		type put struct {
+			in   ssa.Instruction
+			elem *ssa.IndexAddr // the slice element whose params field is handed back
+		}
+		var puts []put
+		for _, c := range callsMatching(f, false, nameIs("(*sync.Pool).Put")) {
+			d := dependsOn(c.Common.Args[len(c.Common.Args)-1], func(v ssa.Value) bool {
+				fv := fieldOfValue(v)
+				return fv != nil && fv.Name() == "params"
+			})
+			if d == nil {
+				continue
+			}
+			var ia *ssa.IndexAddr
+			elemOf := func(base ssa.Value) *ssa.IndexAddr {
+				switch b := base.(type) {
+				case *ssa.IndexAddr:
+					return b
+				case *ssa.Alloc: // a copy of the element kept in a local (the range value)
+					for _, st := range storesInto(b) {
+						if ld, ok := st.Val.(*ssa.UnOp); ok {
+							if e, ok := ld.X.(*ssa.IndexAddr); ok {
+								return e
+							}
+						}
+					}
+				}
+				return nil
+			}
+			switch x := d.(type) {
+			case *ssa.UnOp: // load of &elem.params
+				if fa, ok := x.X.(*ssa.FieldAddr); ok {
+					ia = elemOf(fa.X)
+				}
+			case *ssa.FieldAddr:
+				ia = elemOf(x.X)
+			case *ssa.Field: // field of a copied element (range value)
+				if ld, ok := x.X.(*ssa.UnOp); ok {
+					ia, _ = ld.X.(*ssa.IndexAddr)
+				}
+			}
+			puts = append(puts, put{c.Instr, ia})
+		}
+		r.atLeast("hand-backs of a range's parameter map", len(puts), 1)
+		bad := ""
+		pairs := 0
+		for _, p1 := range puts {
+			for _, p2 := range puts {
+				if p1.in == p2.in || p1.elem == nil || p2.elem == nil {
+					continue
+				}
+				if _, hit := reach(pointAfter(p1.in), func(in ssa.Instruction) bool { return in == p2.in }, nil, isReturn); hit == nil {
+					continue
+				}
+				// p2 walks a re-slice of the list p1's element belongs to?
+				sl, ok := p2.elem.X.(*ssa.Slice)
+				if !ok || !sameValue(sl.X, p1.elem.X) {
+					continue
+				}
+				pairs++
+				if sl.Low == nil {
+					bad = r.pos(p2.in)
+					continue
+				}
+				v2, c2 := splitOffset(sl.Low)
+				v1, c1 := splitOffset(p1.elem.Index)
+				if sameValue(v1, v2) && c2-c1 < 1 {
+					bad = r.pos(p2.in)
+				}
+			}
+		}
+		r.count("hand-back loops that follow another hand-back", pairs)
+		r.check(bad == "", "getOffer:maps-handed-back-once", r.fpos(f), "no loop over the remaining ranges includes the range whose map was already handed back",
+			"the loop at "+bad+" returns the maps of the ranges from the current one on, after the current range's map was already put into the pool: the same map is in the pool twice, a later header with two parameterised ranges receives it for both, and the second range's parameters overwrite the first's")
+	})
+
 	r.rule("R6", "a weight is parsed from a delimited parameter value: ParseUfloat sees the visitor's value or a slice proven to hold no further ';' (E1)", func() {
 		f := r.Fn("", "getOffer")
 		fs := append([]*ssa.Function{f}, anonFuncsDeep(f)...)
